@@ -12,6 +12,7 @@ import (
 	"sort"
 	"strconv"
 	"strings"
+	"syscall"
 	"time"
 
 	"verif/engine/symx"
@@ -447,11 +448,7 @@ func TestVerifReplay(t *testing.T) {
 	ov, _ := json.Marshal(map[string]interface{}{"Replace": repl})
 	of := filepath.Join(tmp, "overlay.json")
 	os.WriteFile(of, ov, 0644)
-	cmd := exec.Command("go", "test", "-v", "-vet=off", "-count=1", "-run", "^TestVerifReplay$", "-overlay", of, "-timeout", "120s", ".")
-	cmd.Dir = dir
-	cmd.Env = append(os.Environ(), "GOFLAGS=-mod=mod", "GOPROXY=off", "GOSUMDB=off", "GOTOOLCHAIN=local", "VERIF_REPLAY="+replayPath)
-	out, _ := cmd.CombinedOutput()
-	txt := string(out)
+	txt := runJailed(dir, of, "^TestVerifReplay$", "VERIF_REPLAY", replayPath, 120)
 	b, _ := os.ReadFile(replayPath)
 	var v symx.Violation
 	json.Unmarshal(b, &v)
@@ -495,7 +492,6 @@ func TestVerifReplay(t *testing.T) {
 	}
 	return -1, "native run inconclusive: " + strings.ReplaceAll(tail, "\n", " | ")
 }
-
 
 // validateNatively runs the vectors through `go test` of the same harnesses and compares
 // the observations (assertions hold, cover points equal unless the path is schedule dependent).
@@ -583,12 +579,9 @@ func TestVerifValidate(t *testing.T) {
 	ov, _ := json.Marshal(map[string]interface{}{"Replace": repl})
 	of := filepath.Join(tmp, "overlay.json")
 	os.WriteFile(of, ov, 0644)
-	cmd := exec.Command("go", "test", "-v", "-vet=off", "-count=1", "-run", "^TestVerifValidate$", "-overlay", of, "-timeout", "300s", ".")
-	cmd.Dir = "/repo"
-	cmd.Env = append(os.Environ(), "GOFLAGS=-mod=mod", "GOPROXY=off", "GOSUMDB=off", "GOTOOLCHAIN=local", "VERIF_VECTORS="+vf)
-	out, _ := cmd.CombinedOutput()
+	out := runJailed("/repo", of, "^TestVerifValidate$", "VERIF_VECTORS", vf, 300)
 	seen := map[int]bool{}
-	for _, l := range strings.Split(string(out), "\n") {
+	for _, l := range strings.Split(out, "\n") {
 		if !strings.HasPrefix(l, "VERIF-VALIDATE ") {
 			continue
 		}
@@ -625,4 +618,35 @@ func TestVerifValidate(t *testing.T) {
 		}
 	}
 	return
+}
+
+// runJailed compiles the test binary of the package in dir (with the overlay) and runs it
+// inside an empty chroot: counterexamples of the confinement properties make the real code
+// create, chmod or remove files outside its destination, which must not reach the machine.
+// The statically linked test binary, the input file and a /tmp are all the jail contains.
+func runJailed(dir, overlay, runPat, envName, inputFile string, timeoutS int) string {
+	jail, err := os.MkdirTemp("", "verif-jail-")
+	if err != nil {
+		return "jail: " + err.Error()
+	}
+	defer os.RemoveAll(jail)
+	os.MkdirAll(filepath.Join(jail, "tmp"), 0777)
+	os.MkdirAll(filepath.Join(jail, "dev"), 0755)
+	// go-fuse's splice package opens /dev/null in its init
+	if err := syscall.Mknod(filepath.Join(jail, "dev", "null"), syscall.S_IFCHR|0666, 1<<8|3); err != nil {
+		os.WriteFile(filepath.Join(jail, "dev", "null"), nil, 0666)
+	}
+	bin := filepath.Join(jail, "harness.test")
+	build := exec.Command("go", "test", "-c", "-vet=off", "-overlay", overlay, "-o", bin, ".")
+	build.Dir = dir
+	build.Env = append(os.Environ(), "GOFLAGS=-mod=mod", "GOPROXY=off", "GOSUMDB=off", "GOTOOLCHAIN=local", "CGO_ENABLED=0")
+	if out, err := build.CombinedOutput(); err != nil {
+		return "build of the native harness failed: " + string(out)
+	}
+	in, _ := os.ReadFile(inputFile)
+	os.WriteFile(filepath.Join(jail, "input.json"), in, 0644)
+	cmd := exec.Command("timeout", strconv.Itoa(timeoutS), "/usr/sbin/chroot", jail, "/harness.test", "-test.v", "-test.count=1", "-test.run", runPat)
+	cmd.Env = []string{envName + "=/input.json", "TMPDIR=/tmp", "HOME=/tmp", "PATH=/", "VERIF_JAIL=1"}
+	out, _ := cmd.CombinedOutput()
+	return string(out)
 }
